@@ -124,7 +124,7 @@ def run(res):
         if kf:
             res.known_finding(kf["description"])
             continue
-        res.violation({"kind": "impl-violates-property", "scenario": small, "impl_trace": rr["obs"],
+        res.violation({"kind": "impl-violates-property", "scenario": small, "impl_trace": rr.get("obs"), "crash": rr.get("crash"),
                        "failed_step": b2[0], "predicate": {"name": "reference set of subscriptions", "verdict": b2[1]},
                        "original_scenario_id": s["id"], "seed": res.seed})
     failing_ids = {s["id"] for s, _ in pred_fail}
